@@ -2,7 +2,8 @@ import ScriggoV.Model.VarStore
 /-! Line protocol of C17 (model: `Model/VarStore.lean`, configuration `Cfg.code`).
 
 `run <nE> <event>… <nI> <init>… <nA> <action>…`
-  event  := `d <f>` | `u <f> <v>` | `x <name>` | `c <p> <f> <m> <upvar>…`   upvar := `P <v>` | `L`
+  event  := `d <f> <pkg>` | `u <f> <v>` | `x <pkg> <name>` | `b <target> <src> <name>`
+            | `c <p> <f> <m> <upvar>…`   upvar := `P <v>` | `L <name>`
   init   := `<v> v <int>` | `<v> p <int>` | `<v> nil` | `<v> nilp` | `<v> wt`
   action := `s <f> <v>` | `w <f> <v> <int>`
 answers `ok used=<v,…|-> out=<int,…|-> ptr=<v:int,…|->` (globals in emission order; values shown;
@@ -39,13 +40,18 @@ def pCounted {α : Type} (p : P α) : P (List α) := fun ts => do
 
 def pUpvar : P Upvar
   | "P" :: v :: ts => some (.predef v, ts)
-  | "L" :: ts => some (.loc, ts)
+  | "L" :: n :: ts => some (.loc n, ts)
   | _ => none
 
 def pEvent : P Event
-  | "d" :: ts => do let (f, ts) ← pNat ts; pure (.declFunc f, ts)
+  | "d" :: ts => do let (f, ts) ← pNat ts; let (k, ts) ← pNat ts; pure (.declFunc f k, ts)
+  | "b" :: ts => do
+    let (t, ts) ← pNat ts
+    let (k, ts) ← pNat ts
+    let (x, ts) ← pTok ts
+    pure (.bindImport t k x, ts)
   | "u" :: ts => do let (f, ts) ← pNat ts; let (v, ts) ← pTok ts; pure (.use f v, ts)
-  | "x" :: ts => do let (v, ts) ← pTok ts; pure (.pkgVar v, ts)
+  | "x" :: ts => do let (k, ts) ← pNat ts; let (v, ts) ← pTok ts; pure (.pkgVar k v, ts)
   | "c" :: ts => do
     let (p, ts) ← pNat ts
     let (f, ts) ← pNat ts
